@@ -365,6 +365,7 @@ def check_state(st, cz, inv, M):
 
 
 G = {}
+FAIL_LIMIT = 400          # failing states after which the remaining states are skipped (reported)
 
 
 def _worker(arg):
@@ -374,7 +375,13 @@ def _worker(arg):
         G["M"]["seed"] = G["seed"]
     out = []
     for i in range(lo, hi):
+        if G["failing"].value >= FAIL_LIMIT:      # a broken implementation fails everywhere: stop early
+            out.append((i, None, None))
+            continue
         ids, problems = check_state(G["states"][i], G["cz"], G["inv"], G["M"])
+        if problems:
+            with G["failing"].get_lock():
+                G["failing"].value += 1
         out.append((i, ids, problems))
     return out
 
@@ -412,7 +419,7 @@ def ident_of(st):
 def execute(ctx, states, edges, tag):
     """Run every state against the real code (pool), then check every edge and the global laws."""
     cz, inv = make_cz(ctx.seed)
-    G.update(states=states, cz=cz, inv=inv, seed=ctx.seed)
+    G.update(states=states, cz=cz, inv=inv, seed=ctx.seed, failing=multiprocessing.Value("i", 0))
     G.pop("M", None)
     step = max(1, len(states) // (ctx.ncpu * 8))
     jobs = [(i, min(len(states), i + step)) for i in range(0, len(states), step)]
@@ -420,10 +427,21 @@ def execute(ctx, states, edges, tag):
     found = {}
     pool = multiprocessing.get_context("fork").Pool(ctx.ncpu)
     try:
-        done = 0
-        for res in pool.imap_unordered(_worker, jobs):
+        done = skipped = 0
+        it = pool.imap_unordered(_worker, jobs)
+        while True:
+            try:
+                res = it.next(timeout=1800)        # watchdog for hangs only (a job takes seconds)
+            except StopIteration:
+                break
+            except multiprocessing.TimeoutError:
+                pool.terminate()
+                ctx.machinery("a worker executing metabook states did not answer for 30 minutes (hang)")
             for i, idp, problems in res:
                 done += 1
+                if problems is None:
+                    skipped += 1
+                    continue
                 ids[i] = idp
                 for key, what in problems:
                     e = found.get(key)
@@ -436,8 +454,10 @@ def execute(ctx, states, edges, tag):
         pool.join()
     if done != len(states):
         ctx.machinery("executed %d of %d states" % (done, len(states)))
-    import time as _t
-    ctx.note("pool done at %.1fs" % (_t.time() - ctx.t0))
+    if skipped:
+        if not found:
+            ctx.machinery("%d states skipped without any failing state" % skipped)
+        ctx.note("%d states were skipped after %d failing states" % (skipped, FAIL_LIMIT))
     for key in sorted(found):
         cnt, what, i = found[key]
         ctx.violation(key, "%s (%d states; first: %s)" % (what, cnt, json.dumps(states[i])[:400]),
@@ -479,7 +499,6 @@ def execute(ctx, states, edges, tag):
         j, i = coll[key][0]
         ctx.violation(key, "%d pairs; first: %s / %s" % (len(coll[key]), json.dumps(states[j])[:300], json.dumps(states[i])[:300]),
                       {"kind": "pair", "a": states[j], "b": states[i], "seed": ctx.seed})
-    ctx.note("edges+global done at %.1fs" % (_t.time() - ctx.t0))
     stats["distinct_contents"] = len(by_ident)
     stats["states_executed"] = sum(1 for x in ids if x is not None)
     return stats
@@ -504,7 +523,7 @@ def run(ctx):
         if mode == "bfs":
             res = run_tlc(ctx, cfg(**pl), "Metabook_enum%d" % pi, workers=1, timeout=3000, heap="12g")
         else:
-            res = run_tlc(ctx, cfg(**pl), "Metabook_sim%d" % pi, workers=1, simulate=(3000 if quick else 20000),
+            res = run_tlc(ctx, cfg(**pl), "Metabook_sim%d" % pi, workers=1, simulate=6000,
                           depth=pl["depth"] + 1, timeout=3000, heap="12g")
         if not res.ok:
             ctx.machinery("reference spec Metabook violates %s %s — a defect of the specification\n%s"
